@@ -201,6 +201,21 @@ func variants(full []byte, rng *rand.Rand, all bool, perField int) []variant {
 					f(d2)
 					add("data-field", append(cloneBytes(h.HdrBytes), d2.Bytes()...))
 				}
+				// the same values in another encoding: the next-key integer with leading zero bytes (length
+				// prefix adjusted).  The MAC covers the bytes sent, not the values read from them
+				for _, fr := range fieldRanges(raw) {
+					if fr.name != "nextlen" {
+						continue
+					}
+					for _, z := range []int{1, 2} {
+						n := binary.BigEndian.Uint32(raw[fr.lo:])
+						b := cloneBytes(raw[:fr.lo])
+						b = binary.BigEndian.AppendUint32(b, n+uint32(z))
+						b = append(b, make([]byte, z)...)
+						b = append(b, raw[fr.hi:]...)
+						add("next/noncanonical", b)
+					}
+				}
 			}
 		}
 	}
@@ -263,7 +278,14 @@ func execAttack(w *world.World, s Step) bool {
 		}
 		if s.T > 0 && len(vs) > s.T {
 			rng.Shuffle(len(vs), func(i, j int) { vs[i], vs[j] = vs[j], vs[i] })
-			vs = vs[:s.T]
+			// the few forms that keep every value and change only its encoding are always tried
+			var must []variant
+			for _, v := range vs[s.T:] {
+				if strings.HasSuffix(v.name, "/noncanonical") {
+					must = append(must, v)
+				}
+			}
+			vs = append(vs[:s.T:s.T], must...)
 		}
 		for _, v := range vs {
 			// a form that still is a well-formed DH-Key with another value in range is accepted by
